@@ -574,8 +574,10 @@ void harness_step(void)
 #endif
 	VERIF_ASSERT(unknown_ops == 0, "step: no buffer outside the scenario is touched");
 	VERIF_WITNESS("step end reachable");
+#if !((MODE == 1 || MODE == 3) && AK >= H)
 	if(rolled && c >= 1)
 		VERIF_WITNESS("step with rollback and coast-forward reachable");
+#endif
 #if MODE == 2
 	if(match_e == 0 && n_early == 2)
 		VERIF_WITNESS("step matching the older of two early anti-messages reachable");
